@@ -13,6 +13,9 @@ if [ -n "${SEED_FORCE_BASE:-}" ] || ! git apply --check "$PATCH" 2>/dev/null; th
   git -C /repo worktree add -q --detach $REPO $BASE || { echo "cannot create worktree at $BASE"; exit 2; }
   echo "(patch does not apply to the current tree; evaluated at $BASE)"
   cd $REPO
+  mkdir -p /tmp/seeded_eval_verif; cp /verif/known_findings.json /tmp/seeded_eval_verif/
+  echo "(violations of the base commit itself, which do not count for this change:)"
+  /verif/bin/templvet -repo $REPO -verif /tmp/seeded_eval_verif -property "$PROP" -tier quick 2>&1 | grep -E "^(VIOLATED|UNDECIDED)" | cut -c1-200 | sed 's/^/   base: /'
   git apply "$PATCH" || { echo "patch does not apply at $BASE either"; git -C /repo worktree remove --force $REPO; exit 2; }
   trap 'git -C /repo worktree remove --force /tmp/seeded_eval_wt' EXIT
 else
